@@ -116,6 +116,12 @@ PROPS = {
         "bounded_parts": ["byte_xor element-wise contract: Kani at N in {0, 4}"],
         "not_decided": ["'decryption under a different secret key never returns the original message' (statistical statement about SHAKE128 output)"],
     },
+    "C12": {
+        "units": [gen("C12")],
+        "trusted_base": TB_ALGEBRA + ["L-VSSS: Share accessors (identifier, value bytes, checked group/field decoding); combine_shares_group and Lagrange interpolation are NOT verified"],
+        "hypotheses": [X_NONID],
+        "not_decided": ["'any t or more distinct shares decrypt to the original message' and 'fewer than t never' (vsss-rs interpolation and an information-theoretic statement)"],
+    },
     "C13": {
         "units": [leaf("assertion failed: o"), gen("C13", props=["lib_payload.rs", "C13.rs"])],
         "trusted_base": TB_ALGEBRA + ["H-XOF / H-HASH: SHAKE128 and SHA-256 are uninterpreted functions of their input", "L-ZIGZAG (see C11)", "A-RNG (see C20)", "Gt is determined by its discrete log; gt_enc is injective",
